@@ -28,6 +28,17 @@ struct Instance {
 }
 
 fn gen_instance(rng: &mut Rng) -> Instance {
+    // the brute-force oracle of this check needs small frameworks: the occasional 18-60 argument
+    // text of the generators (meant for the readers, C13) is redrawn
+    loop {
+        let i = gen_instance_any(rng);
+        if i.names.len() <= 12 {
+            return i;
+        }
+    }
+}
+
+fn gen_instance_any(rng: &mut Rng) -> Instance {
     if rng.pct(50) {
         let (bytes, n, atts) = gen_iccma_text(rng);
         Instance { apx: false, bytes, names: (1..=n).map(|i| i.to_string()).collect(), abs: Abs::new(n, atts) }
@@ -309,7 +320,8 @@ fn success_runs(ctx: &mut Ctx, rng: &mut Rng, dir: &Path) {
             }
             let cert = rng.pct(50);
             // every logging level: the answer lines must be exactly the same, log lines start with `![`
-            let level = *rng.pick(&["off", "off", "off", "off", "info", "info", "warn", "error", "debug", "trace"]);
+            // "default" = no --logging-level flag at all (what a user types first): logging is on, at level info
+            let level = *rng.pick(&["off", "off", "off", "off", "info", "info", "warn", "error", "debug", "trace", "default", "default"]);
             let logging_on = level != "off";
             let mut args: Vec<String> = vec!["solve".into(), "-f".into(), file.to_string_lossy().to_string(), "-p".into(), mix_case(rng, p)];
             if inst.apx || rng.pct(50) {
@@ -331,8 +343,12 @@ fn success_runs(ctx: &mut Ctx, rng: &mut Rng, dir: &Path) {
             if cert {
                 args.push(if rng.pct(50) { "-c" } else { "--with-certificate" }.into());
             }
-            args.push("--logging-level".into());
-            args.push(level.into());
+            if level != "default" {
+                args.push("--logging-level".into());
+                args.push(level.into());
+            } else {
+                ctx.count("success_runs/no-logging-level-flag");
+            }
             if let Some(out) = run(&crustabri, &args) {
                 ctx.eval();
                 ctx.count(&format!("success_runs/crustabri/{}", q));
@@ -467,6 +483,10 @@ fn error_runs(ctx: &mut Ctx, rng: &mut Rng, dir: &Path) {
         vec!["0".into(), (n + 1).to_string(), "abc".into(), "-1".into(), "1.0".into()]
     };
     for b in bad_args {
+        if inst.names.contains(&b) {
+            // "<name>x" can be the name of another declared argument: not an unknown argument
+            continue;
+        }
         cases.push(("unknown-argument", base(&dprob, Some(&b))));
         // an unknown argument is an error whatever the problem (a *valid* superfluous -a for SE is not)
         if rng.pct(50) {
@@ -531,6 +551,54 @@ fn error_runs(ctx: &mut Ctx, rng: &mut Rng, dir: &Path) {
             if let Some(out) = run(&wrapper, &args) {
                 judge_error(ctx, "crustabri_iccma23", kind, &args, Some(&inst), &out);
             }
+        }
+    }
+}
+
+/// Invocations that are documented not to be errors and not to be queries: help, authors, the
+/// wrapper without arguments (ICCMA: name, version, authors).  Exit 0, no answer-shaped line.
+fn informational_runs(ctx: &mut Ctx) {
+    let crustabri = ctx.repo_bin_dir.join("crustabri");
+    let wrapper = ctx.repo_bin_dir.join("crustabri_iccma23");
+    let runs: Vec<(&str, &std::path::PathBuf, Vec<&str>)> = vec![
+        ("crustabri", &crustabri, vec!["-h"]),
+        ("crustabri", &crustabri, vec!["--help"]),
+        ("crustabri", &crustabri, vec!["help"]),
+        ("crustabri", &crustabri, vec!["solve", "-h"]),
+        ("crustabri", &crustabri, vec!["help", "solve"]),
+        ("crustabri", &crustabri, vec!["check", "--help"]),
+        ("crustabri", &crustabri, vec!["authors"]),
+        ("crustabri", &crustabri, vec!["authors", "--logging-level", "off"]),
+        ("crustabri_iccma23", &wrapper, vec![]),
+    ];
+    for (bin_name, bin, args) in runs {
+        let args: Vec<String> = args.iter().map(|s| s.to_string()).collect();
+        let out = match run(bin, &args) {
+            Some(o) => o,
+            None => return,
+        };
+        ctx.eval();
+        ctx.count("informational_runs");
+        let case = invocation_json(bin_name, &args, None);
+        let shaped: Vec<&str> = out.stdout.lines().filter(|l| !l.starts_with("![") && answer_shaped(l)).collect();
+        if out.code != Some(0) {
+            ctx.violation(
+                &format!("C05/informational-invocation-fails/{}/{}", bin_name, args.first().map(|s| s.as_str()).unwrap_or("no-argument")),
+                json!({"exit": out.code, "stdout": out.stdout.chars().take(400).collect::<String>(), "stderr": out.stderr.chars().take(400).collect::<String>()}),
+                &case,
+            );
+        } else if !shaped.is_empty() {
+            ctx.violation(
+                &format!("C05/informational-invocation-prints-an-answer/{}", bin_name),
+                json!({"answer_shaped_lines": shaped}),
+                &case,
+            );
+        } else if bin_name == "crustabri_iccma23" && !out.stdout.to_lowercase().contains("crustabri") {
+            ctx.violation(
+                "C05/wrapper-without-arguments-does-not-identify-itself",
+                json!({"stdout": out.stdout.chars().take(400).collect::<String>()}),
+                &case,
+            );
         }
     }
 }
@@ -628,7 +696,12 @@ pub fn run_c05(ctx: &mut Ctx) {
         match rng.weighted(&[6, 4, 1]) {
             0 => success_runs(ctx, &mut rng, &dir),
             1 => error_runs(ctx, &mut rng, &dir),
-            _ => problems_runs(ctx, &mut rng, &dir),
+            _ => {
+                problems_runs(ctx, &mut rng, &dir);
+                if i % 3 == 0 {
+                    informational_runs(ctx);
+                }
+            }
         }
     }
     let _ = std::fs::remove_dir_all(&dir);
